@@ -169,7 +169,7 @@ fn parse_response(raw: &[u8]) -> std::io::Result<HttpResponse> {
         .and_then(|s| s.parse::<u16>().ok())
         .ok_or_else(|| invalid(&format!("unparseable status line: {status_line:?}")))?;
 
-    let headers = head
+    let headers: Vec<(String, String)> = head
         .split(|b| *b == b'\n')
         .skip(1)
         .filter_map(|line| {
@@ -178,6 +178,22 @@ fn parse_response(raw: &[u8]) -> std::io::Result<HttpResponse> {
             Some((k.trim().to_ascii_lowercase(), v.trim().to_string()))
         })
         .collect();
+
+    // "Everything until EOF" cannot tell a complete body from a connection that
+    // died mid-body. When the peer declared a length, hold it to that: a shorter
+    // body is a truncated response, never a complete one.
+    let declared = headers
+        .iter()
+        .find(|(k, _)| k == "content-length")
+        .and_then(|(_, v)| v.parse::<usize>().ok());
+    if let Some(declared) = declared {
+        if body.len() < declared {
+            return Err(invalid(&format!(
+                "response body truncated: got {} of {declared} declared bytes",
+                body.len()
+            )));
+        }
+    }
 
     Ok(HttpResponse {
         status,
